@@ -130,6 +130,13 @@ def sys_total() -> int:
     return t[1] + t[2]
 
 
+# lines of a capture that are not frames of a monitored ID: blank lines, comments, and lines for
+# an unmonitored ID that were cut short (logger killed / disk full: odd number of hex digits)
+TEXT_NOISE = ["", "# comment", "   ", "interface = can0",
+              "(1700000000.000100) can0 6FE#11223", "(1700000000.000100) can0 6FE##1112",
+              "  can0  6FE   [3]  11 22 3", "(1700000000.000100) can0 6FE#1", "  can0  6FE   [8]  1",
+              "(1700000000.0001"]
+
 ENTRY_POOL = [
     {"ep": "direct", "kind": "passive", "dt": "bytearray"},
     {"ep": "direct", "kind": "passive", "dt": "message"},
@@ -329,12 +336,12 @@ def gen(rs: int, index: int, tier: str) -> Dict[str, Any]:
     # text rendering choices live in the frame records (self-describing, shrinkable)
     rt = S.rng("text")
     out_frames: List[List[Any]] = []
-    style = rt.randint(0, 15)
+    style = rt.randint(0, 31)
     for f in frames:
         n = len(f[1]) // 2
         out_frames.append(f + [pick_fmt(rt, mode, n)])
         if rt.random() < 0.04:
-            out_frames.append([None, rt.choice(["", "# comment", "   ", "interface = can0"]), "tn", -1, "n"])
+            out_frames.append([None, rt.choice(TEXT_NOISE), "tn", -1, "n"])
     re_ = S.rng("entries")
     return {
         "kind": "open",
